@@ -94,6 +94,18 @@ Theorem C14_refuted_inplace :
 Proof. exact (conj inplace_mixed (conj inplace_trunc inplace_key_incomplete)). Qed.
 Print Assumptions C14_refuted_inplace.
 
+(* ... and on the reader opening once and reading the inode it opened: with the variant
+   reader "take the length from a separate earlier look-up of the key, then open the key
+   and read exactly that many bytes", a rename between the two makes a read return a
+   truncated entry although every writer follows the rename program. *)
+Theorem C14_refuted_stat_then_read :
+  forallb (fun ve => match ve with VE e => safe e | _ => true end) tr_stat_then_read = true /\
+  exists vs rr c, vexec sha0 (init, []) tr_stat_then_read = Some vs /\
+    getN 0%N (s_r (fst vs)) = Some rr /\ r_st rr = RDone (Hit c) /\
+    forall w wr, getN w (s_w (fst vs)) = Some wr -> c <> w_content wr.
+Proof. exact stat_then_read_truncated. Qed.
+Print Assumptions C14_refuted_stat_then_read.
+
 (* The case model of the correspondence check (hook-granularity schedules expanded
    into traces of the semantics above) meets the boolean oracle that is evaluated on
    what the implementation did: reads are misses or complete bundles of a writer of
